@@ -51,8 +51,10 @@ def configs(tier, seed):
             out.append(dict(part='indep2', route=r1, route2=r2, mutation=rng.choice(('write_flags', 'config', 'reset')), x=list(rng.choice(fm)), shape=[]))
     for x in C.pick(fm, 4 if tier == 'quick' else len(fm), rng):
         out.append(dict(part='view', x=list(x)))
-    for car in ('list', 'tuple', 'nested', 'ndarray', 'list_float', 'bin_list', 'hex_list', 'bin_nested'):
+    for car in ('list', 'tuple', 'nested', 'ndarray', 'list_float', 'bin_list', 'hex_list', 'bin_nested', 'ndarray_raw', 'ndarray_raw_u', 'ndarray_2d'):
         for ent in ('ctor', 'set_val', 'call'):
+            if ent == 'call' and car.startswith('ndarray_raw'):
+                continue
             if tier == 'quick' and rng.random() < 0.4:
                 continue
             out.append(dict(part='container', carrier=car, entry=ent, x=list(rng.choice([f for f in fm if f[1] >= 4]))))
@@ -91,7 +93,7 @@ def inputs(cfg):
         sp['v'] = dict(kind='float', lo=-(4 << (n + 2)), hi=(4 << (n + 2)), exp=-(f + 2))
         return sp
     if p == 'container':
-        k = 4 if cfg['carrier'] in ('nested', 'bin_nested') else 2
+        k = 4 if cfg['carrier'] in ('nested', 'bin_nested', 'ndarray_2d') else 2
         for i in range(k):
             if cfg['carrier'] == 'list_float':
                 sp['a%d' % i] = dict(kind='float', lo=-(1 << (n + 3)), hi=(1 << (n + 3)), exp=-(f + 2))
@@ -232,8 +234,20 @@ def run(F, cfg, inp):
         el = x[1]
         before = O.snap(x.val)
         y = x[1][0]
-        return dict(val=O.snap(x.val), row=O.snap(row.val), el=O.snap(el.val), y=O.snap(y.val), before=before,
-                    row_status_shared=row.status is x.status, row_config_shared=row.config is x.config)
+        ob = dict(val=O.snap(x.val), row=O.snap(row.val), el=O.snap(el.val), y=O.snap(y.val), before=before,
+                  row_status_shared=row.status is x.status, row_config_shared=row.config is x.config)
+        # a view shows the values; what is done to the view *object* afterwards (re-formatting it, giving it a whole new value,
+        # resetting it) is that object's own business: the parent keeps its format, so its codes must not change
+        v2 = x[0]
+        v2.resize(not s if n > 1 else s, n + 3, f + 2)
+        v3 = x[1]
+        v3.resize(s, n, f)                       # (same format: the codes are rewritten unchanged)
+        v3.set_val(v3.val * 0 + 1, raw=True)
+        v3.status['overflow'] = True
+        ob['after_view_reformat'] = O.snap(x.val)
+        ob['fmt_after'] = C.fmt_of(x)
+        ob['status_after'] = {k: bool(w) for k, w in x.status.items()}
+        return ob
     if p == 'container':
         car = cfg['carrier']
         a = [inp[k] for k in sorted(k for k in inp if k.startswith('a'))]
@@ -248,6 +262,11 @@ def run(F, cfg, inp):
             cont = [[a[0], a[1]], [a[2], a[3]]]
         elif car == 'ndarray':
             cont = C.mk_array(F, 'int64', a[:2])
+        elif car in ('ndarray_raw', 'ndarray_raw_u'):
+            # in-range codes in an array that already has the storage dtype of the object (nothing to convert: tempting to keep as is)
+            cont = C.mk_array(F, 'int64' if s else 'uint64', a[:2])
+        elif car == 'ndarray_2d':
+            cont = C.mk_array(F, 'int64', a[:4], (2, 2))
         elif car == 'bin_list':
             cont = list(src.bin(prefix='0b'))
         elif car == 'hex_list':
@@ -257,16 +276,29 @@ def run(F, cfg, inp):
             cont = [[b[0], b[1]], [b[1], b[0]]]
         snap0 = _csnap(cont)
         ids0 = _cids(cont)
+        rawkw = dict(raw=True) if car.startswith('ndarray_raw') else {}
         if cfg['entry'] == 'ctor':
-            x = F.Fxp(cont, s, n, f)
+            x = F.Fxp(cont, s, n, f, **rawkw)
         elif cfg['entry'] == 'set_val':
             x = F.Fxp(None, s, n, f)
-            x.set_val(cont)
+            x.set_val(cont, **rawkw)
         else:
             x = F.Fxp(None, s, n, f)
             x(cont)
+        ob = dict(before=snap0, same_objects=ids0 == _cids(cont))
+        if car.startswith('ndarray'):
+            # aliasing in both directions: an indexed write into the object must not reach the caller's array, and the caller
+            # changing its array afterwards must not change the object
+            ix = (1, 0) if car == 'ndarray_2d' else 1
+            x[ix] = 0
+            ob['after_indexed_write'] = _csnap(cont)
+            held = O.snap(x.val)
+            cont[0 if car != 'ndarray_2d' else (0, 1)] = 1
+            ob['object_before_container_write'], ob['object_after_container_write'] = held, O.snap(x.val)
+            cont[0 if car != 'ndarray_2d' else (0, 1)] = a[0] if car != 'ndarray_2d' else a[1]
         x.set_val(x.val * 0, raw=True)                          # and a later write must not reach the container either
-        return dict(before=snap0, after=_csnap(cont), same_objects=ids0 == _cids(cont), val=O.snap(x.val))
+        ob.update(after=_csnap(cont), val=O.snap(x.val))
+        return ob
     k = _n(cfg['shape'])
     A = _mk(F, cfg, [inp['a%d' % i] for i in range(k)])
     other = _mk(F, cfg, [inp['b%d' % i] for i in range(k)])
@@ -346,9 +378,16 @@ def post(cfg, inp, ob):
                 ('other_cells_untouched', SP.AND(T.icmp(cells[0], a[0], '=='), T.icmp(cells[2], a[2], '=='), T.icmp(cells[3], a[3], '=='))),
                 ('views_show_the_parent_values', SP.AND(T.icmp(O.cells(ob['row'])[1], want, '=='), T.icmp(O.cells(ob['el'])[0], a[2], '=='),
                                                         T.icmp(O.cells(ob['y'])[0], a[2], '=='))),
-                ('view_does_not_share_status_or_config', not ob['row_status_shared'] and not ob['row_config_shared'])]
+                ('view_does_not_share_status_or_config', not ob['row_status_shared'] and not ob['row_config_shared']),
+                ('parent_unchanged_by_reformatting_or_rewriting_a_view_object',
+                 SP.AND(ob['fmt_after'] == [s, n, f], not ob['status_after']['overflow'],
+                        *[T.icmp(u, v, '==') for u, v in zip(O.cells(ob['after_view_reformat']), cells)]))]
     if p == 'container':
-        return [('container_contents_unchanged', _snap_eq(ob['before'], ob['after'])), ('container_elements_are_the_same_objects', ob['same_objects'] is True)]
+        out = [('container_contents_unchanged', _snap_eq(ob['before'], ob['after'])), ('container_elements_are_the_same_objects', ob['same_objects'] is True)]
+        if 'after_indexed_write' in ob:
+            out.append(('container_unchanged_by_an_indexed_write_into_the_object', _snap_eq(ob['before'], ob['after_indexed_write'])))
+            out.append(('object_unchanged_by_a_later_write_into_the_container', _snap_eq(ob['object_before_container_write'], ob['object_after_container_write'])))
+        return out
     if 'not_fxp' in ob:
         return [('derived_object_is_fxp', False)]
     out = [('distinct_objects', ob['distinct'] is True)]
